@@ -754,6 +754,23 @@ fn attr_modules_build() -> Vec<Vec<u8>> {
             }
         }
     }
+    // --- 64-bit tables (memory64 proposal): imported/local, active segments with i64 offsets
+    for imported in [false, true] {
+        let mut m = MSpec::default();
+        m.types.push((vec![], vec![]));
+        m.imports.push(Import { module: "env".into(), field: "o64".into(), kind: ImportKind::Global(GlobalTy { ty: VT::I64, mutable: false }) });
+        let t = TableTy { elem: VT::FuncRef, lim: Limits { min: 4, max: Some(9), shared: false, is64: true } };
+        if imported {
+            m.imports.push(Import { module: "env".into(), field: "t64".into(), kind: ImportKind::Table(t) });
+        } else {
+            m.tables.push(t);
+        }
+        m.funcs.push(FuncSpec { ty: 0, locals: vec![], code: vec![0x0b] });
+        m.elems.push(ElemSpec { mode: ElemMode::Active { table: 0, offset: CExpr::I64(1) }, ty: VT::FuncRef, items: ElemItems::Funcs(vec![0]), explicit_table: false });
+        m.elems.push(ElemSpec { mode: ElemMode::Active { table: 0, offset: CExpr::GlobalGet(0) }, ty: VT::FuncRef, items: ElemItems::Exprs(vec![CExpr::RefFunc(0), CExpr::RefNull(VT::FuncRef)]), explicit_table: true });
+        m.exports.push(Export { name: "t".into(), kind: ExportKind::Table, index: 0 });
+        out.push(m);
+    }
     // --- globals: every type x mutability x imported/local x initialiser form
     {
         let mut m = MSpec::default();
